@@ -834,6 +834,246 @@ def translate_util(toks, raw):
     return maps, loop
 
 
+# ------------------------------------------------------------------------------- util.hpp: function shapes
+# read_data and matrix_from_callback are algorithms, not tables.  They are tied by SHAPE: the function is
+# rendered canonically (comments, layout, `std::`/`tapkee::` qualifiers, the names of parameters and locals,
+# the text of string literals, `++i` vs `i++`, braces around a single statement and the integer type of a
+# loop counter do not matter; everything else does) and compared with the reviewed shape that the Coq model
+# mirrors.  Any other shape becomes `...Other` and the obligations about it fail.
+KEYWORDS_NOT_TYPES = {"return", "throw", "break", "continue", "delete", "goto", "else", "case", "new", "typedef",
+                      "using"}
+INT_TYPES = {"int", "long", "unsigned", "size_t", "auto", "Index", "IndexType", "ptrdiff_t", "short", "signed"}
+
+
+def function_def(toks, name):
+    """(parameter tokens, body tokens) of the first definition of `name`"""
+    for i in range(len(toks) - 2):
+        if toks[i] == ("id", name) and toks[i + 1] == ("op", "("):
+            j = match_close(toks, i + 1)
+            if j + 1 < len(toks) and toks[j + 1] == ("op", "{"):
+                e = match_close(toks, j + 1)
+                return toks[i + 2:j], toks[j + 2:e]
+    raise TranslateError("function %s not found" % name)
+
+
+def declared_names(t):
+    """names declared by a simple statement `type a [= ..| (..)] , b ...` (empty list if it is not a declaration)"""
+    if not t or (t[0][0] == "id" and t[0][1] in KEYWORDS_NOT_TYPES):
+        return []
+    p = parse_type_prefix(t)
+    if p is None or p == 0:
+        return []
+    names = [t[p][1]]
+    for part in split_top(t[p + 1:], ",")[1:]:
+        part = [x for x in part if x not in (("op", "*"), ("op", "&"))]
+        if part and part[0][0] == "id":
+            names.append(part[0][1])
+    return names
+
+
+def for_clauses(header):
+    """header = `for ( a ; b ; c )` tokens -> [a, b, c] or None (while loops, range-for)"""
+    if header[0] != ("id", "for"):
+        return None
+    parts = split_top(header[2:-1], ";")
+    return parts if len(parts) == 3 else None
+
+
+def collect_locals(params, stmts):
+    names = []
+
+    def add(n):
+        if n not in names:
+            names.append(n)
+    for part in split_top(params, ","):
+        ids = [x[1] for x in part if x[0] == "id"]
+        if ids:
+            add(ids[-1])
+    for top in stmts:
+        for s in walk(top):
+            if s[0] == "simple":
+                for n in declared_names(s[1]):
+                    add(n)
+            elif s[0] == "loop":
+                cl = for_clauses(s[1])
+                if cl:
+                    for n in declared_names(cl[0]):
+                        add(n)
+    return names
+
+
+def canon_tokens(toks, ren):
+    """token list -> canonical text"""
+    out, i, n = [], 0, len(toks)
+    while i < n:
+        k, v = toks[i]
+        if k == "id" and v in ("std", "tapkee") and i + 1 < n and toks[i + 1] == ("op", "::"):
+            i += 2
+            continue
+        if k == "id" and v == "static_cast" and i + 1 < n and toks[i + 1] == ("op", "<"):
+            depth, j = 0, i + 1
+            while j < n:
+                if toks[j] == ("op", "<"):
+                    depth += 1
+                elif toks[j] == ("op", ">"):
+                    depth -= 1
+                elif toks[j] == ("op", ">>"):
+                    depth -= 2
+                if depth <= 0:
+                    break
+                j += 1
+            out.append("CAST")
+            i = j + 1
+            continue
+        if k == "op" and v in ("++", "--") and i + 1 < n and toks[i + 1][0] == "id" and \
+                (i == 0 or toks[i - 1][0] == "op" and toks[i - 1][1] in (";", "(", "{", "}")):
+            # prefix increment of a plain variable used as a statement
+            out.append(ren.get(toks[i + 1][1], toks[i + 1][1]))
+            out.append(v)
+            i += 2
+            continue
+        if k == "str":
+            out.append('"S"')
+        elif k == "id" and v in ren and not (out and out[-1] in (".", "->", "::")):
+            out.append(ren[v])
+        else:
+            out.append(v)
+        i += 1
+    return " ".join(out)
+
+
+def canon_stmt(s, ren):
+    k = s[0]
+    if k == "simple":
+        return canon_tokens(s[1], ren) + " ;"
+    if k == "block":
+        inner = [canon_stmt(x, ren) for x in s[1]]
+        return inner[0] if len(inner) == 1 else "{ " + " ".join(inner) + " }"
+    if k == "if":
+        r = "if ( " + canon_tokens(s[1], ren) + " ) THEN " + canon_stmt(s[2], ren)
+        if s[3] is not None:
+            r += " ELSE " + canon_stmt(s[3], ren)
+        return r + " ENDIF"
+    if k == "loop":
+        cl = for_clauses(s[1])
+        if cl:
+            init = cl[0]
+            if declared_names(init):
+                p = parse_type_prefix(init)
+                if all(x[0] != "id" or x[1] in INT_TYPES or x[1] in ("std", "tapkee", "DenseMatrix", "Eigen", "const")
+                       for x in init[:p]):
+                    init = [("id", "INT")] + init[p:]
+            head = "for ( %s ; %s ; %s )" % tuple(canon_tokens(c, ren) for c in (init, cl[1], cl[2]))
+        else:
+            head = canon_tokens(s[1], ren)
+        return head + " DO " + canon_stmt(s[2], ren) + " DONE"
+    if k == "try":
+        return "try " + canon_stmt(s[1], ren) + "".join(" catch " + canon_stmt(h, ren) for h in s[2])
+    raise TranslateError("statement kind " + k)
+
+
+def canon_function(toks, name):
+    params, body = function_def(toks, name)
+    stmts = parse_stmts(body)
+    names = collect_locals(params, stmts)
+    ren = {n: "L%d" % i for i, n in enumerate(names)}
+    return "( " + canon_tokens(params, ren) + " ) " + " ".join(canon_stmt(s, ren) for s in stmts), stmts
+
+
+LINE_LOOPS = [
+    (re.compile(r"while \( getline \( (L\d+) , (L\d+) \) \) DO \{"), "LoopGetline"),
+    (re.compile(r"while \( (L\d+) \) DO \{ getline \( \1 , (L\d+) \) ;"), "LoopStreamThenGetline"),
+]
+
+# the reviewed shape of read_data (everything but the header of the line loop): one vector per non-empty
+# line, filled with the tokens that parse (`if (value_stream >> value) row.push_back(value)`), a final empty
+# token never produced (`while (ss) { if (!getline(ss, tok, delimiter)) break; ...`), then a rows x
+# row0.size() matrix filled row by row with a per-row length test that throws.   = Cli_Model.to_matrix
+READ_DATA_EVERY_ROW = (
+    "( ifstream & L0 , char L1 ) string L2 ; vector < vector < ScalarType >> L3 ; "
+    "LINELOOP istringstream L4 ( L2 ) ; "
+    "if ( L2 . size ( ) ) THEN { vector < ScalarType > L5 ; "
+    "while ( L4 ) DO { string L6 ; if ( ! getline ( L4 , L6 , L1 ) ) THEN break ; ENDIF "
+    "istringstream L7 ( L6 ) ; ScalarType L8 ; if ( L7 >> L8 ) THEN L5 . push_back ( L8 ) ; ENDIF } DONE "
+    "L3 . push_back ( L5 ) ; } ENDIF } DONE "
+    "if ( ! L3 . empty ( ) ) THEN { DenseMatrix L9 ( L3 . size ( ) , L3 [ 0 ] . size ( ) ) ; "
+    "for ( INT L10 = 0 ; L10 < L9 . rows ( ) ; L10 ++ ) DO { "
+    "if ( CAST ( L3 [ L10 ] . size ( ) ) != L9 . cols ( ) ) THEN { stringstream L4 ; L4 << \"S\" << L10 ; "
+    "throw runtime_error ( L4 . str ( ) ) ; } ENDIF "
+    "for ( INT L11 = 0 ; L11 < L9 . cols ( ) ; L11 ++ ) DO L9 ( L10 , L11 ) = L3 [ L10 ] [ L11 ] ; DONE } DONE "
+    "return L9 ; } ELSE return DenseMatrix ( 0 , 0 ) ; ENDIF"
+)
+
+MFC_RE = re.compile(
+    r"\( const IndexType L0 , PairwiseCallback L1 \) "
+    r"DenseMatrix L2 (?P<init>\( L0 , L0 \)|= DenseMatrix :: Zero \( L0 , L0 \)) ; IndexType L3 , L4 ; "
+    r"for \( L3 = 0 ; L3 < L0 ; L3 \+\+ \) DO "
+    r"for \( L4 = L3(?: \+ (?P<off>\d+))? ; L4 < L0 ; L4 \+\+ \) DO "
+    r"\{ ScalarType L5 = L1 \( L3 , L4 \) ; L2 \( L3 , L4 \) = L5 ; L2 \( L4 , L3 \) = L5 ; \} DONE DONE "
+    r"return L2 ;")
+
+
+def throw_sites(stmts):
+    """[(enclosing kinds, innermost condition text)] for every throw"""
+    out = []
+
+    def go(s, ctx):
+        k = s[0]
+        if k == "simple":
+            if s[1] and s[1][0] == ("id", "throw"):
+                out.append(list(ctx))
+        elif k == "block":
+            for x in s[1]:
+                go(x, ctx)
+        elif k == "if":
+            go(s[2], ctx + [("if", s[1])])
+            if s[3] is not None:
+                go(s[3], ctx + [("else", s[1])])
+        elif k == "loop":
+            go(s[2], ctx + [("loop", s[1])])
+        elif k == "try":
+            go(s[1], ctx)
+            for h in s[2]:
+                go(h, ctx)
+    for s in stmts:
+        go(s, [])
+    return out
+
+
+def translate_shapes(toks):
+    """read_check and mfc tables"""
+    text, stmts = canon_function(toks, "read_data")
+    body = text
+    for rx, _ in LINE_LOOPS:
+        body, n = rx.subn("LINELOOP", body, count=1)
+        if n:
+            break
+    if body == READ_DATA_EVERY_ROW:
+        check = ("CheckEveryRow",)
+    else:
+        # one aggregate test: a single throw outside every loop on `#values != lines * columns`, values kept flat
+        sites = throw_sites(stmts)
+        check = ("CheckOther", hashlib_short(body))
+        if len(sites) == 1 and not any(k == "loop" for k, _ in sites[0]) and "vector < vector" not in body \
+                and sites[0] and sites[0][-1][0] == "if":
+            cond = canon_tokens(sites[0][-1][1], {})
+            if re.fullmatch(r"(CAST \( )?\w+ \. size \( \)( \))? != \w+ \* \w+", cond) or \
+                    re.fullmatch(r"\w+ \* \w+ != (CAST \( )?\w+ \. size \( \)( \))?", cond):
+                check = ("CheckTotalCount",)
+    mtext, _ = canon_function(toks, "matrix_from_callback")
+    m = MFC_RE.fullmatch(mtext)
+    if m:
+        mfc = ("MfcLoops", "InitUninit" if m.group("init").startswith("(") else "InitZero", int(m.group("off") or 0))
+    else:
+        mfc = ("MfcOther", hashlib_short(mtext))
+    return check, mfc, text, mtext
+
+
+def hashlib_short(s):
+    import hashlib
+    return "unrecognised shape " + hashlib.sha1(s.encode()).hexdigest()[:12]
+
+
 # ------------------------------------------------------------------------------- emit
 def cstr(s):
     if any(ord(c) < 32 or ord(c) > 126 for c in s):
@@ -937,6 +1177,15 @@ def emit(tab):
     o.append("")
     o.append("Definition gen_read_loop : read_loop := %s." % tab["read_loop"])
     o.append("")
+    rc = tab["read_check"]
+    o.append("(* shape of read_data apart from the header of its line loop (row storage, token filter, length test) *)")
+    o.append("Definition gen_read_check : read_check := %s." % (rc[0] if len(rc) == 1 else "CheckOther " + cstr(rc[1])))
+    o.append("")
+    mf = tab["mfc"]
+    o.append("(* shape of matrix_from_callback: initial value of the result, first column visited in row i = i + offset *)")
+    o.append("Definition gen_mfc : mfc_shape := %s." % (
+        "MfcLoops %s %d" % (mf[1], mf[2]) if mf[0] == "MfcLoops" else "MfcOther " + cstr(mf[1])))
+    o.append("")
     o.append("Definition gen_help : list (string * string) := " + clist(
         ["(%s, %s)" % (cstr(k), cstr(v)) for k, v in tab["help"]]) + ".")
     o.append("")
@@ -967,6 +1216,10 @@ def translate(repo):
     tab = translate_main(mtoks, maps)
     tab["maps"] = maps
     tab["read_loop"] = loop
+    check, mfc, rd_text, mfc_text = translate_shapes(utoks)
+    tab["read_check"] = check
+    tab["mfc"] = mfc
+    tab["shape_text"] = {"read_data": rd_text, "matrix_from_callback": mfc_text}
     # canonical order where the order has no meaning: kwargs items (ParametersSet is a map),
     # option declarations (only the help text depends on it), map entries (std::map).
     # Duplicates are kept (stable sort), so a keyword bound twice stays visible.
@@ -1009,6 +1262,14 @@ MUTATIONS = [
     (UTIL, '{"lle", tapkee::KernelLocallyLinearEmbedding}', '{"lle", tapkee::KernelLocalTangentSpaceAlignment}',
      "maps"),
     (UTIL, '{"vptree", tapkee::VpTree}', '{"vptree", tapkee::Brute}', "maps"),
+    (UTIL, "for (j = i; j < N; j++)", "for (j = i + 1; j < N; j++)", "mfc"),
+    (UTIL, "tapkee::DenseMatrix result(N, N);", "tapkee::DenseMatrix result = tapkee::DenseMatrix::Zero(N, N);", "mfc"),
+    (UTIL, "result(j, i) = res;", "result(i, j) = res;", "mfc"),
+    (UTIL, "!= fm.cols())", "> fm.cols())", "read_check"),
+    (UTIL, "if (value_stream >> value)\n                    row.push_back(value);",
+     "value_stream >> value;\n                row.push_back(value);", "read_check"),
+    (UTIL, "fm(i, j) = input_data[i][j];", "fm(i, j) = input_data[i][0];", "read_check"),
+    (UTIL, "for (int i = 0; i < fm.rows(); i++)", "for (int i = 1; i < fm.rows(); i++)", "read_check"),
     (MAIN, "catch (const std::exception &exc)\n    {\n        std::cerr << \"Some error occured: \" << exc.what() << std::endl;\n        return 1;",
      "catch (const std::exception &exc)\n    {\n        std::cerr << \"Some error occured: \" << exc.what() << std::endl;\n        return 0;",
      "catch"),
